@@ -5,6 +5,7 @@ Parametric theorems hold for EVERY `NumOps` carrier, hence for whatever f64 does
 -/
 import RsassModel.Num.Format
 import RsassModel.Num.FormatLemmasShape
+import RsassModel.Num.FormatLemmasUnique
 namespace C10
 open Num NumOps
 
@@ -210,6 +211,33 @@ theorem fmt_round_exact (p : Nat) (x : ℚ) :
   obtain ⟨m, hm⟩ := printedAbs_scaled fmtSpec p x _ (spec_frac_len p x)
   exact round_exact_of_interval _ _ _ m hm h1 h2
 
+/-- COMPLETE CHARACTERISATION (specification model).  The output of `fracDigits` is THE
+canonical numeral of `|x|` rounded half away from zero at `k` places: any natural integer
+part `w` and digit list `ds` (digits `< 10`, no trailing zero) denoting
+`⌊|x|·10^k + ½⌋ / 10^k` is exactly what is printed. -/
+theorem fmt_spec_determined (p : Nat) (x : ℚ) (w : Nat) (ds : List Nat)
+    (h1 : ∀ d ∈ ds, d < 10) (h2 : ds.getLast? ≠ some 0)
+    (hv : (w : ℚ) + fracVal ds
+      = (⌊|x| * 10 ^ (min (16 - log10ceil (truncAbs x)) p) + 1 / 2⌋ : ℤ)
+          / 10 ^ (min (16 - log10ceil (truncAbs x)) p)) :
+    fracDigits fmtSpec p x = (ds, (w : ℚ)) := by
+  obtain ⟨w0, hw0⟩ := fracDigits_whole_nat fmtSpec p x
+  obtain ⟨s1, s2⟩ := fracDigits_shape fmtSpec p x
+  have he := fmt_round_exact p x
+  rw [← hv] at he
+  unfold printedAbs at he
+  rw [hw0] at he
+  obtain ⟨e1, e2⟩ := numeral_unique w0 w _ ds s2 h1 s1 ((noTrailingZero_iff ds).mpr h2) he
+  apply Prod.ext
+  · exact e2
+  · simp only [hw0, e1]
+
+/-- the characterisation is not vacuous: `2/3` at precision 3 is `0.667`, and `-1/8` at
+precision 2 is an exact tie, rounded away from zero to `0.13` -/
+example : fracDigits fmtSpec 3 (2 / 3 : ℚ) = ([6, 6, 7], 0) ∧
+    fracDigits fmtSpec 2 (-1 / 8 : ℚ) = ([1, 3], 0) ∧
+    fracDigits fmtSpec 2 (99999 / 10000 : ℚ) = ([], 10) := by decide +kernel
+
 /-- PARTIAL (code as it is): correctly rounded whenever at least one decimal is allowed. -/
 theorem asis_correctly_rounded_partial (p : Nat) (x : ℚ)
     (h : 1 ≤ min (16 - log10ceil (truncAbs x)) p) :
@@ -312,6 +340,32 @@ theorem fmt_digits_lt_10 (q : FmtQuirks) (c : Bool) (p : Nat) (x : ℚ) :
       · obtain ⟨d, hd, rfl⟩ := List.mem_map.mp h
         exact Or.inr (Or.inr (digitChar_isDigit d (hds d hd)))
 
+/-- SIGN.  A `-` is printed (and then as the first character) exactly when `x < 0` and
+the printed magnitude is not zero: a negative value that rounds to zero prints as `0`,
+never `-0`. -/
+theorem fmt_sign_iff (q : FmtQuirks) (c : Bool) (p : Nat) (x : ℚ) :
+    '-' ∈ (fmtNumber q c p x).toList ↔ x < 0 ∧ printedAbs (fracDigits q p x) ≠ 0 := by
+  obtain ⟨w, hw⟩ := fracDigits_whole_nat q p x
+  have hwd : ∀ d ∈ showWhole (fracDigits q p x).2, d < 10 := by
+    rw [hw, showWhole_natCast]; exact (decDigits_spec w).1
+  have hdd := (fracDigits_shape q p x).2
+  have hnd : ∀ ds : List Nat, (∀ d ∈ ds, d < 10) → '-' ∉ ds.map digitChar := by
+    intro ds h hm
+    obtain ⟨d, hd, he⟩ := List.mem_map.mp hm
+    have := digitChar_isDigit d (h d hd)
+    rw [he] at this; exact absurd this (by decide)
+  have hzero := printedAbs_eq_zero_iff q p x
+  rw [fmtNumber_toList, rat_signBit, ne_eq, hzero]
+  generalize fracDigits q p x = r at hwd hdd
+  obtain ⟨dec, whole⟩ := r
+  simp only [] at hwd hdd ⊢
+  have hW := hnd _ hwd
+  have hD := hnd _ hdd
+  have hdot : ¬ ('-' = '.') := by decide
+  rw [rat_isZero]
+  by_cases hs : x < 0 <;> by_cases hw0 : whole = 0 <;> cases dec <;>
+    simp_all
+
 /-- The integer-part digits denote the integer part. -/
 theorem fmt_whole_denotes (q : FmtQuirks) (p : Nat) (x : ℚ) :
     ((natVal (showWhole (fracDigits q p x).2) : Nat) : ℚ) = (fracDigits q p x).2 := by
@@ -352,6 +406,9 @@ theorem fmt_sig_cap (p : Nat) (x : ℚ) (hd : (fracDigits fmtSpec p x).1 ≠ [])
     · rw [numDigits_eq_log10ceil _ h1 hp]; omega
     · have h0 : ratTruncNat x = 0 := by omega
       rw [h0, numDigits_zero]; omega
+
+/-- the hypothesis of `fmt_sig_cap` is satisfiable -/
+example : (fracDigits fmtSpec 10 (1 / 3 : ℚ)).1 ≠ [] := by decide +kernel
 
 /-- the power-of-ten edge is real: `1000000 + 1/3` at precision 20 prints 7 integer
 digits and 10 fractional digits — 17 significant digits (both models; the Rust code
